@@ -10,7 +10,7 @@ ASSUME = [
     "bounds: 2 s wall time per call; bytes allocated per call (runtime.MemStats.TotalAlloc delta) <= 256 * len(input) + 4 MiB",
     "this is survival only: whether an accepted hostile input is decoded 'correctly' is not judged",
 ]
-RULE = ("cases = every state of MC_RobustT and MC_RobustP (quick: every 16th / 6th) fed to every read-side entry point (thrift Skip Go/native, Node.Interface, MarshalTo, PathNode load+marshal, t2j, envelope parser; "
+RULE = ("cases = every state of MC_RobustT and MC_RobustP (quick: every 13th) and every state of MC_RobustE (mutated strict message envelopes, never thinned) fed to every read-side entry point (thrift Skip Go/native, Node.Interface, MarshalTo, PathNode load+marshal, t2j, envelope parser UnwrapBinaryMessage/UnwrapBody and ReadMessageBegin..End; "
         "proto Skip, Interface, MarshalTo, PathNode load+marshal, GetByPath, p2j; j2t and j2p on mutated JSON) + deep nestings; judged by TLC (Trace_Robust)")
 
 
@@ -25,6 +25,12 @@ def run(R):
                 f.write(json.dumps(dict(kind="thrift", t=r["t"], base=r["base"], b=r["b"], mk=r["mk"])) + "\n")
                 n += 1
         mt["records"] = None
+        me = R.model_check("MC_RobustE", "MC_RobustE.cfg", timeout=3000, workers=8)
+        for r in me["records"]:
+            if r.get("tag") == "case":
+                f.write(json.dumps(dict(kind="env", base=r["base"], b=r["b"], mk=r["mk"])) + "\n")
+                n += 1
+        me["records"] = None
         mp = R.model_check("MC_RobustP", "MC_RobustP.cfg", timeout=3000, workers=8)
         schema = [r for r in mp["records"] if r.get("tag") == "schema"][0]["schema"]
         f.write(json.dumps(dict(schema=schema)) + "\n")
